@@ -607,3 +607,9 @@ Section NumVal.
       + eexists. exact E0.
   Qed.
 End NumVal.
+
+Print Assumptions rulename_ok.
+Print Assumptions repeat_ok.
+Print Assumptions char_val_ok.
+Print Assumptions num_val_ok.
+Print Assumptions prose_ok.
